@@ -166,7 +166,7 @@ impl<S: Spec> Machine for CloneMachine<S> {
                 let r = &mut side.r;
                 match guard(|| ff(r, &val)) {
                     Ok(i) => side.issued.push((i, v)),
-                    Err(p) if self.e.zst && p.contains("capacity overflow") => return Step::Refused(p),
+                    Err(p) if self.e.zst && crate::engine::exhaustion(&p) => return Step::Refused(p),
                     Err(p) => return Step::Violation(format!("{what} panicked: {p}")),
                 }
             }
